@@ -157,7 +157,7 @@ Choices(deep) ==
 (* ------------------------------------------------------------------ single-fault mutants (C04, C20) *)
 (* [class, at: index of the entity/type concerned, lexeme: the offending name a diagnostic should quote ("" = none), *)
 (*  code: diagnostic family expected ("" = any error)]                                                             *)
-M(cl, at, lx, code) == [class |-> cl, at |-> at, lexeme |-> lx, code |-> code, pos |-> ""]
+M(cl, at, lx, code) == [class |-> cl, at |-> at, lexeme |-> lx, code |-> code, pos |-> "", stretch |-> 0]
 (* an undefined name can stand at any operand position of an expression; the resolver treats the operands of    *)
 (* relational operators, of IN / LIKE, of intervals, of function calls, of QUERY and of unary operators by      *)
 (* separate code, so every one of them is a mutant of its own (DERIVE and WHERE context)                        *)
@@ -187,10 +187,15 @@ Mutants(c) ==
   \cup {[M("undef_ref", 1, "nosuch_a", "UNDEFINED") EXCEPT !.pos = p] : p \in UndefRefPos}
 
 (* lexical mutants (C20): the offending character / identifier / count must be the one quoted *)
+(* the same faults with the offending name made long (stretch: that many characters are appended to it wherever it  *)
+(* occurs): a diagnostic must quote the whole name, and what follows the name in the message, whatever its length    *)
+Stretched(c) == {[m EXCEPT !.stretch = k] : m \in {x \in Mutants(c) : x.class \in {"undef_type", "dup_entity", "undef_supertype", "undef_function"} /\ x.pos = ""},
+                                             k \in {150, 400}}
+                \cup {[M("lex_underscore_ident", 1, "_bad", "BAD_IDENTIFIER") EXCEPT !.stretch = 200], [M("argcount", 1, "f1x", "WRONG_ARG_COUNT") EXCEPT !.stretch = 180]}
 LexMutants ==
   {M("lex_underscore_ident", 1, "_bad", "BAD_IDENTIFIER"), M("lex_unexpected_char", 1, "~", "UNEXPECTED_CHARACTER"),
    M("lex_nonascii", 1, "0xe9", "NONASCII_CHAR"), M("lex_bad_hex_digit", 1, "G", "ENCODED_STRING_BAD_DIGIT"),
-   M("lex_bad_hex_count", 1, "6", "ENCODED_STRING_BAD_COUNT"), M("argcount", 1, "f1", "WRONG_ARG_COUNT")}
+   M("lex_bad_hex_count", 1, "6", "ENCODED_STRING_BAD_COUNT"), M("argcount", 1, "f1x", "WRONG_ARG_COUNT")}
 
 (* ------------------------------------------------------------------ files the C++ generator writes (C17) *)
 (* one header/implementation pair per entity, per enumeration and per select that is declared with its own items / *)
